@@ -355,6 +355,14 @@ func c14World(t *testing.T, r *simcore.Run) any {
 					fail("csptp/request-tlv", "request TLV round trip (server state %v): %v %+v vs %+v len %d", withDS, err, rq2, rq, len(buf))
 					return
 				}
+				// the encoding is a function of the value alone: the same bytes whatever the
+				// destination buffer held before (send loops reuse theirs)
+				dirty := bytes.Repeat([]byte{0xa5}, len(buf))
+				csptp.EncodeRequestTLV(dirty, &rq)
+				if !bytes.Equal(dirty, buf) {
+					fail("csptp/request-tlv-reused-buffer", "request TLV (server state %v) encoded into a buffer that held other bytes differs from its encoding into a zeroed one: %x vs %x", withDS, dirty, buf)
+					return
+				}
 				if err := csptp.DecodeRequestTLV(&rqReused, buf); err != nil || rqReused != rq {
 					fail("csptp/request-tlv-reused-destination", "request TLV decoded into a struct that held the previous message: %v %+v vs %+v", err, rqReused, rq)
 					return
@@ -380,6 +388,13 @@ func c14World(t *testing.T, r *simcore.Run) any {
 					fail("csptp/response-tlv", "response TLV round trip (server state %v): %v\n%+v\n%+v", withDS, err, rs2, rs)
 					return
 				}
+				dirty = bytes.Repeat([]byte{0x5a}, len(buf))
+				csptp.EncodeResponseTLV(dirty, &rs)
+				if !bytes.Equal(dirty, buf) {
+					fail("csptp/response-tlv-reused-buffer", "response TLV (server state %v) encoded into a buffer that held other bytes differs from its encoding into a zeroed one: %x vs %x", withDS, dirty, buf)
+					return
+				}
+				r.Probe("tlv-encoded-into-reused-buffer")
 				if err := csptp.DecodeResponseTLV(&rsReused, buf); err != nil || rsReused != rs {
 					fail("csptp/response-tlv-reused-destination", "response TLV decoded into a struct that held the previous message: %v\n%+v\n%+v", err, rsReused, rs)
 					return
